@@ -2,6 +2,9 @@ package main
 
 // Oracle c18: implementation-only check of property C18.
 //
+//   - concurrent writers (raw_concurrent.go): 2..4 goroutines inside the
+//     underlying WriteTo at once; each frame, when submitted and when sent,
+//     must be the frame of its own datagram;
 //   - write side: every frame the real BroadcastRawUDPConn.WriteTo hands to the
 //     underlying conn is verified by a receiver written here from RFC 791 /
 //     RFC 768 / RFC 1071 (no code shared with nclient4);
@@ -206,6 +209,15 @@ func oracleC18(r *Rng, n int, thorough bool, seeds []string) *OracleResult {
 		}
 		sample(line)
 	}
+	checkCW := func(sc *rawCWScenario) {
+		line := rawCWLine(sc)
+		res.Evaluations++
+		seen[hashStr(line)] = struct{}{}
+		if what, class := rawCheckCW(sc); what != "" {
+			fail(Failure{Oracle: "c18", Input: line, What: what, Class: class})
+		}
+		sample(line)
+	}
 	checkRead := func(bound *net.UDPAddr, buflen int, frames [][]byte) {
 		line := rawrdLine(bound, buflen, frames)
 		res.Evaluations++
@@ -269,6 +281,10 @@ func oracleC18(r *Rng, n int, thorough bool, seeds []string) *OracleResult {
 				if inC18WriteDomain(unhx(toks[1]), dst, src) {
 					checkWrite(unhx(toks[1]), dst, src)
 				}
+			case "rawcw":
+				if sc := rawParseCW(toks[1:]); sc.src != nil && len(sc.ws) > 0 {
+					checkCW(sc)
+				}
 			case "rawrd":
 				b, bl, fs := parseRawrd(toks[1:])
 				checkRead(b, bl, fs)
@@ -295,9 +311,21 @@ func oracleC18(r *Rng, n int, thorough bool, seeds []string) *OracleResult {
 			}
 		}
 	}
+	if thorough {
+		rawEnumCW(func(sc *rawCWScenario) {
+			checkCW(sc)
+			res.Tags["cw:exhaustive"]++
+		})
+	}
 	for i := 0; i < n; i++ {
 		rr := r.Fork()
-		if i%2 == 0 {
+		if i%8 == 3 {
+			sc, tags := rawGenCW(rr)
+			for _, t := range tags {
+				res.Tags[t]++
+			}
+			checkCW(sc)
+		} else if i%2 == 0 {
 			p, dst, src, tags := genRawwr(rr, true)
 			for _, t := range tags {
 				res.Tags["wr:"+t]++
